@@ -540,3 +540,73 @@ def check_symmetric_collapse(ctx: CheckContext, p: Program, r: Resolver, funcs: 
                                "" if has_abs else f"`{ast.unparse(node)}` compares a signed hot/cold pinch difference with a tolerance: it is true for every record "
                                                   f"whose difference has that sign, so distinct pinches are reported as one")
     return n
+
+
+def check_default_filter(ctx: CheckContext, p: Program, r: Resolver, rule: str = "DEFAULT-FILTER"):
+    """The decision that a default utility is NOT needed may only be based on utilities that will actually be instantiated:
+    the list builder keeps a utility iff `u.active and u.type in [...]`; every statement that clears a 'need default' flag
+    must sit under a condition that tests the same attributes of the utility it looks at."""
+    ctx.rule(rule, "producer/consumer agreement: the attributes by which the utility list builder filters (active, type) are also tested wherever a "
+                   "supplied utility is taken as reason not to add a default utility - for the hot and for the cold side alike")
+    m = p.modules.get("OpenPinch.analysis.data_preparation")
+    if m is None:
+        raise AnalysisError("data_preparation module not found")
+    # consumer filter: attributes tested in a comprehension/generator filter over the utilities in the function that builds Stream objects
+    filt: Set[str] = set()
+    for f in [x for x in p.all_funcs if x.module is m and not isinstance(x.node, ast.Lambda)]:
+        builds = any(isinstance(c, ast.Call) and any(isinstance(t, ClassInfo) and t.name == "Stream" for t in r.resolve_call(f, c)) for c in body_nodes(f) if isinstance(c, ast.Call))
+        if not builds:
+            continue
+        for n in body_nodes(f):
+            if isinstance(n, ast.comprehension) and n.ifs and isinstance(n.target, ast.Name):
+                for cond in n.ifs:
+                    for x in ast.walk(cond):
+                        if isinstance(x, ast.Attribute) and isinstance(x.value, ast.Name) and x.value.id == n.target.id:
+                            filt.add(x.attr)
+    if not filt:
+        raise AnalysisError("utility list builder's filter not recognised (anchor vanished)")
+    ctx.info["utility_list_filter_attributes"] = sorted(filt)
+    n_sites = 0
+    for f in [x for x in p.all_funcs if x.module is m and not isinstance(x.node, ast.Lambda)]:
+        # flags: locals initialised True, cleared inside a loop over utilities, and returned
+        inits = {t.id for st in f.node.body if isinstance(st, ast.Assign) and isinstance(st.value, ast.Constant) and st.value.value is True
+                 for t in st.targets if isinstance(t, ast.Name)}
+        returned = {x.id for rt in body_nodes(f) if isinstance(rt, ast.Return) and rt.value is not None for x in ast.walk(rt.value) if isinstance(x, ast.Name)}
+        flags = inits & returned
+        if not flags:
+            continue
+        for loop in [x for x in f.node.body if isinstance(x, ast.For) and isinstance(x.target, ast.Name)]:
+            uv = loop.target.id
+
+            def walk(stmts, conds):
+                nonlocal n_sites
+                for st in stmts:
+                    if isinstance(st, ast.Assign) and isinstance(st.value, ast.Constant) and st.value.value is False \
+                            and any(isinstance(t, ast.Name) and t.id in flags for t in st.targets):
+                        tested: Set[str] = set()
+                        for c in conds:
+                            for x in ast.walk(c):
+                                if isinstance(x, ast.Attribute) and isinstance(x.value, ast.Name) and x.value.id == uv:
+                                    tested.add(x.attr)
+                                if isinstance(x, ast.Call):
+                                    # predicate helper applied to the utility: the attributes its result tests
+                                    for t in r.resolve_call(f, x):
+                                        if isinstance(t, FuncInfo) and t.module is m and any(isinstance(a, ast.Name) and a.id == uv for a in x.args):
+                                            pn = t.pos_params[[i for i, a in enumerate(x.args) if isinstance(a, ast.Name) and a.id == uv][0]]
+                                            for y in ast.walk(t.node):
+                                                if isinstance(y, ast.Attribute) and isinstance(y.value, ast.Name) and y.value.id == pn:
+                                                    tested.add(y.attr)
+                        n_sites += 1
+                        missing = sorted(filt - tested)
+                        flag = [t.id for t in st.targets if isinstance(t, ast.Name)][0]
+                        ctx.ob(rule, f"{f.qualname}:{flag}", f"{f.module.relpath}:{st.lineno}", not missing,
+                               "" if not missing else f"'{flag}' is cleared because of a supplied utility without testing its {', '.join(missing)} attribute(s), "
+                                                      f"by which the utility list is filtered: a utility that will not be instantiated suppresses the default utility, "
+                                                      f"so the side's duties cannot sum to the target")
+                    if isinstance(st, ast.If):
+                        walk(st.body, conds + [st.test])
+                        walk(st.orelse, conds)
+                    elif isinstance(st, (ast.For, ast.While, ast.With)):
+                        walk(st.body, conds)
+            walk(loop.body, [])
+    return n_sites
